@@ -22,7 +22,7 @@ Log(a, th, arg, evs) == /\ hist' = Append(hist, Rec(a, th, arg, evs))
 E1(name) == << [ev |-> name] >>
 Ei(name, i) == << [ev |-> name, i |-> i] >>
 
-ReportEvs == [k \in 1 .. Cardinality(Ifs \ reg) |-> [ev |-> "report"]]
+ReportEvs == [k \in 1 .. Cardinality(ToReport) |-> [ev |-> "report"]]
 
 GMain ==
   \/ M_LoopTest /\ Log("M_LoopTest", "main", 0, <<>>)
@@ -37,7 +37,8 @@ GMain ==
   \/ M_NoIf /\ Log("M_NoIf", "main", 0, <<[ev |-> "noiface"]>> \o (IF FixNoIf THEN <<[ev |-> "mdown"], [ev |-> "mdown"]>> ELSE <<>>)
                                         \o <<[ev |-> "ret"]>>)
   \/ M_Prop /\ Log("M_Prop", "main", 0, E1("up"))
-  \/ M_PropDisc /\ Log("M_PropDisc", "main", 0, IF stopping THEN <<>> ELSE <<[ev |-> "up"], [ev |-> "disc_new"]>>)
+  \/ M_PropDisc /\ Log("M_PropDisc", "main", 0, IF stopping THEN <<>> ELSE IF reg = {} THEN <<[ev |-> "noiface"]>>
+                                                 ELSE <<[ev |-> "up"], [ev |-> "disc_new"]>>)
   \/ M_Disc /\ Log("M_Disc", "main", 0, E1("disc_new"))
   \/ M_Join /\ Log("M_Join", "main", 0, E1("stopped"))
   \/ M_ShutMods /\ Log("M_ShutMods", "main", 0, <<[ev |-> "mdown"], [ev |-> "mdown"]>>)
@@ -52,7 +53,8 @@ GIface(i) ==
   \/ I_ServeBegin(i) /\ Log("I_ServeBegin", "if", i, Ei("serve_b", i))
   \/ I_ServeEnd(i) /\ Log("I_ServeEnd", "if", i, Ei("serve_e", i))
   \/ I_Close(i) /\ Log("I_Close", "if", i, Ei("close", i))
-  \/ I_Finish(i) /\ Log("I_Finish", "if", i, Ei("if_end", i))
+  \/ I_Finish(i) /\ Log("I_Finish", "if", i, <<>>)
+  \/ I_End(i) /\ Log("I_End", "if", i, Ei("if_end", i))
 
 GDisc(g) ==
   \/ D_Run(g) /\ Log("D_Run", "disc", g, <<>>)
